@@ -595,7 +595,14 @@ impl<'tera> VirtualMachine<'tera> {
                     let verif_before = state.verif_sizes();
                     let res = if state.capture_block == Some(block_name.as_str()) {
                         let mut buf = Vec::with_capacity(256);
+                        // The block might be in a filter section/set block: we still want what it
+                        // writes, so it can't go to the enclosing capture buffer directly
+                        let old_capture_buffers = std::mem::take(&mut state.capture_buffers);
                         let r = self.interpret(state, &mut buf);
+                        state.capture_buffers = old_capture_buffers;
+                        if let Some(captured) = state.capture_buffers.last_mut() {
+                            captured.extend_from_slice(&buf);
+                        }
                         state.block_buffer = buf;
                         r
                     } else {
